@@ -2,6 +2,7 @@ package mon
 
 import (
 	"bufio"
+	"encoding/hex"
 	"encoding/json"
 	"expvar"
 	"fmt"
@@ -461,6 +462,42 @@ func c14History(st *c14State, inputs []c14Input, randomSeqs int, full bool) {
 	}
 }
 
+// C14Sig prints the signature of one ParseVector call made as the FIRST call of a fresh process.
+func C14Sig(ver int, hexInput string) {
+	b, err := hex.DecodeString(hexInput)
+	if err != nil {
+		Broken("C14sig: %v", err)
+	}
+	fmt.Print("C14SIG " + sigParse(probe.APIs[ver], string(b)))
+}
+
+// c14FreshProcess re-computes every baseline in its own freshly started process
+// (no earlier call at all) and compares it with the in-process baseline.
+func c14FreshProcess(st *c14State, inputs []c14Input) {
+	sem := make(chan struct{}, 16)
+	var wg sync.WaitGroup
+	for i := range inputs {
+		wg.Add(1)
+		sem <- struct{}{}
+		go func(in *c14Input) {
+			defer wg.Done()
+			defer func() { <-sem }()
+			out, err := exec.Command(os.Args[0], "C14sig", fmt.Sprint(in.ver), hex.EncodeToString([]byte(in.s))).Output()
+			got := string(out)
+			if err != nil || !strings.HasPrefix(got, "C14SIG ") {
+				st.mismatch(Violation{Kind: "process-died-in-fresh-process-call", Version: spec.Versions[in.ver].Name, Steps: parseSteps(in.s), Expected: in.base, Observed: fmt.Sprint(err, " ", got)})
+				return
+			}
+			if got[7:] != in.base {
+				st.mismatch(Violation{Kind: "result-depends-on-history", Version: spec.Versions[in.ver].Name, Steps: parseSteps(in.s), Expected: "as the first call of a fresh process: " + got[7:], Observed: in.base})
+			}
+			st.events.Add(1)
+		}(&inputs[i])
+	}
+	wg.Wait()
+	st.res.Counters["fresh_process_baselines"] = int64(len(inputs))
+}
+
 // C14Child is the workload process: mode = plain | race | race-instr | asan.
 func C14Child(mode, tier string, seed int64) {
 	res := &c14Result{Mode: mode, Counters: map[string]int64{}}
@@ -468,6 +505,9 @@ func C14Child(mode, tier string, seed int64) {
 	quick := tier != "thorough"
 	inputs, shared := c14Baseline(st, seed)
 	res.Counters["inputs"] = int64(len(inputs))
+	if mode == "plain" {
+		c14FreshProcess(st, inputs)
+	}
 	scale := 1
 	switch mode {
 	case "race":
@@ -692,7 +732,7 @@ func CheckC14(c *Ctx) {
 		distinct += res.ContextPairs
 		summary[b.mode] = map[string]any{"events": res.Events, "distinct_keys": res.Keys, "keys_seen_by_2plus_goroutines": res.KeysMulti, "distinct_(previous,current)_context_pairs": res.ContextPairs,
 			"yields_taken": res.Yields, "strings_reverified": res.StringsRecheck, "sequences": res.Sequences, "pool_reuse_sequences_v2": res.PoolReuse, "race_report_blocks": raw, "race_reports_deduplicated": len(dedup),
-			"configurations": res.Configs, "wall_s": time.Since(t0).Seconds(), "inputs": res.Counters["inputs"]}
+			"configurations": res.Configs, "wall_s": time.Since(t0).Seconds(), "inputs": res.Counters["inputs"], "fresh_process_baselines": res.Counters["fresh_process_baselines"]}
 		if b.mode == "race-instr" {
 			c.Floor("yields taken in the instrumented build", res.Yields, 1000)
 		}
@@ -708,9 +748,9 @@ func CheckC14(c *Ctx) {
 		c.Extra["yield_points_inserted"] = s
 	}
 	c.SetReport(Report{
-		Rule:        "four builds of the CURRENT tree (plain; -race; -race after the AST yield-point pass that inserts seeded Gosched/sleep calls at loop heads and after call statements of go-cvss; -asan in thorough). In each: (1) baselines of ~40 inputs per version computed after forced double GC in forward and reverse order (must agree with each other and with the grammar/canonical-form oracles); (2) sequential histories hostile to pooled scratch buffers under GOMAXPROCS(1)+GC off: ALL ordered pairs per version, all triples for v2 (1/7 for others), random sequences of 2-50 calls across versions -- every result must equal its baseline; (3) goroutines {4,16,64} x GOMAXPROCS {2,16} hammering the small shared input set (parse, everything observable of shared read-only objects, Set on local copies, parse-mutate-parse, Rating) with results compared to baselines; (4) every Vector() string kept next to an immediate clone and re-compared later, forced GC every 10k events. Race reports are counted from the GORACE log (never from the exit code) and de-duplicated by first-frame pair. evaluations = events; distinct = distinct (previous call, current call) context pairs summed over builds",
+		Rule:        "four builds of the CURRENT tree (plain; -race; -race after the AST yield-point pass that inserts seeded Gosched/sleep calls at loop heads and after call statements of go-cvss; -asan in thorough). In each: (1) baselines of ~40 inputs per version computed after forced double GC in forward and reverse order (must agree with each other, with the grammar/canonical-form oracles and -- plain build -- with the same call made as the first call of a fresh process); (2) sequential histories hostile to pooled scratch buffers under GOMAXPROCS(1)+GC off: ALL ordered pairs per version, all triples for v2 (1/7 for others), random sequences of 2-50 calls across versions -- every result must equal its baseline; (3) goroutines {4,16,64} x GOMAXPROCS {2,16} hammering the small shared input set (parse, everything observable of shared read-only objects, Set on local copies, parse-mutate-parse, Rating) with results compared to baselines; (4) every Vector() string kept next to an immediate clone and re-compared later, forced GC every 10k events. Race reports are counted from the GORACE log (never from the exit code) and de-duplicated by first-frame pair. evaluations = events; distinct = distinct (previous call, current call) context pairs summed over builds",
 		DistinctN:   distinct,
-		Assumptions: []string{"the race detector sees only executed pairs of accesses; interleavings are explored, not enumerated", "baselines after double GC stand for 'no history' for pool-like state; a fresh-process baseline is not used"},
+		Assumptions: []string{"the race detector sees only executed pairs of accesses; interleavings are explored, not enumerated", "in the plain build every baseline is also recomputed as the first call of a freshly started process; the sanitizer builds rely on the double-GC baseline"},
 	})
 	c.Finish()
 }
